@@ -16,40 +16,29 @@ int xv_threw; uint64_t xv_clock, xv_rmw_old; _Bool xv_cas_ok;
 #define NP 3                       /* node pool: at most 2 linked nodes + 1 freshly allocated */
 #define entries_per_node CAP
 #define RING_REQ_OBL "nq.scq.requires"
-size_t xv_expected_rs; uint64_t xv_ev;
+size_t xv_expected_rs; unsigned short xv_ev;
 #include "../scq/ring_stub.h"
 
-typedef uintptr_t marked_ptr; typedef uintptr_t guard_ptr;     /* node handles: 0 = null, k+1 = pool[k] */
-typedef struct { uint64_t v; _Bool alive; _Bool moved; _Bool cell; unsigned nc, nd, nm; } T;   /* cell: storage cell of a node; nc/nd/nm: ghost counters of placement-new / ~T / move-out on this cell */
+typedef uintptr_t marked_ptr; typedef uintptr_t guard_ptr;     /* node handles: 0 = null, k+1 = NODE(k) */
+typedef struct { uint32_t v; _Bool alive; _Bool moved; _Bool cell; unsigned char nc, nd, nm; } T;   /* cell: storage cell of a node; nc/nd/nm: ghost counters of placement-new / ~T / move-out on this cell */
 struct node { T _storage[CAP]; struct ring _allocated_queue; struct ring _free_queue; marked_ptr _next;
               size_t xv_storage_words; _Bool xv_live; unsigned xv_deleted, xv_retired; };
 struct nq { marked_ptr _tail; marked_ptr _head; };
-struct node pool[NP]; struct nq* g_self; _Bool g_in_dtor;
+struct node node0, node1, node2; struct nq* g_self; _Bool g_in_dtor;   /* three separate objects: a write through a node handle touches one of them */
+static struct node* node_at(uintptr_t h) { return h == 1 ? &node0 : h == 2 ? &node1 : &node2; }   /* handle -> node (case split, no pointer arithmetic on a symbolic handle) */
+#define NODE(k) (*node_at((uintptr_t)(k) + 1))
 unsigned g_ext_moved_out, g_ext_assigned;
-uint64_t g_t_construct, g_t_destroy, g_t_moveout;
+unsigned short g_t_construct, g_t_destroy, g_t_moveout;
 
 /* ---- element model */
-static void t_construct_move(T* cell, T* src) {
-  XV_OBL("nq.own.exactly_once", cell->cell && !cell->alive);
-  XV_OBL("nq.own.exactly_once", src->alive && !src->moved);
-  cell->v = src->v; cell->alive = 1; cell->moved = 0; src->moved = 1;
-  if (!src->cell) g_ext_moved_out++;
-  cell->nc++; g_t_construct = ++xv_ev;
-}
-static void t_destroy(T* cell) {
-  XV_OBL("nq.own.exactly_once", cell->cell && cell->alive);
-  cell->alive = 0; cell->nd++; g_t_destroy = ++xv_ev;
-}
-static void t_move_assign(T* dst, T* src) {
-  XV_OBL("nq.own.exactly_once", src->alive && !src->moved);
-  XV_OBL("nq.own.exactly_once", dst->alive);
-  dst->v = src->v; dst->moved = 0; src->moved = 1;
-  if (src->cell) { src->nm++; g_t_moveout = ++xv_ev; }
-  if (!dst->cell) g_ext_assigned++;
-}
-#define XV_CONSTRUCT_MOVE(cell, src) t_construct_move(&(cell), &(src))
-#define XV_DESTROY(cell) t_destroy(&(cell))
-#define XV_MOVE_ASSIGN(dst, src) t_move_assign(&(dst), &(src))
+/* placement new T(std::move(s)) into raw cell c / c.~T() / d = std::move(s): lvalue macros (no pointers into the cell arrays) */
+#define XV_CONSTRUCT_MOVE(c, s) do { \
+  XV_OBL("nq.own.exactly_once", (c).cell && !(c).alive); XV_OBL("nq.own.exactly_once", (s).alive && !(s).moved); \
+  (c).v = (s).v; (c).alive = 1; (c).moved = 0; (s).moved = 1; if (!(s).cell) g_ext_moved_out++; (c).nc++; g_t_construct = ++xv_ev; } while (0)
+#define XV_DESTROY(c) do { XV_OBL("nq.own.exactly_once", (c).cell && (c).alive); (c).alive = 0; (c).nd++; g_t_destroy = ++xv_ev; } while (0)
+#define XV_MOVE_ASSIGN(d, s) do { \
+  XV_OBL("nq.own.exactly_once", (s).alive && !(s).moved); XV_OBL("nq.own.exactly_once", (d).alive); \
+  (d).v = (s).v; (d).moved = 0; (s).moved = 1; if ((s).cell) { (s).nm++; g_t_moveout = ++xv_ev; } if (!(d).cell) g_ext_assigned++; } while (0)
 /* ---- rings */
 #define RING_dequeue(r, out, cap, rs) ring_dequeue(&(r), &(out), (cap), (rs))
 #define RING_enqueue_ff(r, v, cap, rs) ring_enqueue(&(r), (v), (cap), (rs), 0)
@@ -60,7 +49,6 @@ static void t_move_assign(T* dst, T* src) {
 #define XV_INIT__allocated_queue(self, cap, rs, tag) ring_ctor(&(self)->_allocated_queue, (cap), (rs), (tag))
 #define XV_INIT__free_queue(self, cap, rs, tag) ring_ctor(&(self)->_free_queue, (cap), (rs), (tag))
 /* ---- guards and node handles */
-static struct node* node_at(uintptr_t h) { return h == 1 ? &pool[0] : h == 2 ? &pool[1] : &pool[2]; }   /* handle -> node (case split instead of pointer arithmetic on a symbolic handle) */
 guard_ptr g_protected; uint64_t g_acq_clock; unsigned g_acquires;
 static struct node* gderef(guard_ptr n) {
   XV_OBL("nq.guard.protected", n != 0 && n <= NP && n == g_protected && node_at(n)->xv_live);   /* only a protected, not yet freed node is accessed */
@@ -82,18 +70,18 @@ static void g_reclaim(guard_ptr* n) {
 #define G_reclaim(n) g_reclaim(&(n))
 static void nq_node_ctor(struct node* self); static void nq_node_ctor_value(struct node* self, T* value_p); static void nq_node_dtor(struct node* self);
 static marked_ptr new_node(T* value) {
-  unsigned k = NP; for (unsigned i = 0; i < NP; i++) if (k == NP && !pool[i].xv_live && pool[i].xv_retired == 0) k = i;
+  unsigned k = NP; for (unsigned i = 0; i < NP; i++) if (k == NP && !NODE(i).xv_live && NODE(i).xv_retired == 0) k = i;
   XV_ASSUME(k < NP);                      /* pool shape: one spare node */
-  pool[k]._next = 0; pool[k].xv_live = 1; pool[k].xv_deleted = 0; pool[k].xv_retired = 0;
-  for (unsigned i = 0; i < CAP; i++) pool[k]._storage[i].alive = 0;
-  if (value) nq_node_ctor_value(&pool[k], value); else nq_node_ctor(&pool[k]);
+  NODE(k)._next = 0; NODE(k).xv_live = 1; NODE(k).xv_deleted = 0; NODE(k).xv_retired = 0;
+  for (unsigned i = 0; i < CAP; i++) NODE(k)._storage[i].alive = 0;
+  if (value) nq_node_ctor_value(&NODE(k), value); else nq_node_ctor(&NODE(k));
   return k + 1;
 }
 static void delete_node(marked_ptr h) {
   XV_OBL("nq.node.delete_once", h != 0 && h <= NP && node_at(h)->xv_live && node_at(h)->xv_retired == 0);
   if (!g_in_dtor) {                       /* outside the queue destructor only a never-published node may be deleted */
     XV_OBL("nq.node.delete_once", g_self->_head != h && g_self->_tail != h);
-    for (unsigned i = 0; i < NP; i++) XV_OBL("nq.node.delete_once", !(pool[i].xv_live && pool[i]._next == h));
+    for (unsigned i = 0; i < NP; i++) XV_OBL("nq.node.delete_once", !(NODE(i).xv_live && NODE(i)._next == h));
   }
   nq_node_dtor(node_at(h));
   node_at(h)->xv_live = 0; node_at(h)->xv_deleted++;
@@ -113,7 +101,7 @@ static void delete_node(marked_ptr h) {
 unsigned mon_cas_count; _Bool mon_bad;
 uint64_t mon_next_val, mon_next_clock; void* mon_next_addr;
 static void mon_load(void* addr, uint64_t v, int o) {
-  for (unsigned i = 0; i < NP; i++) if (addr == (void*)&pool[i]._next) { mon_next_val = v; mon_next_clock = xv_clock; mon_next_addr = addr; }
+  for (unsigned i = 0; i < NP; i++) if (addr == (void*)&NODE(i)._next) { mon_next_val = v; mon_next_clock = xv_clock; mon_next_addr = addr; }
 }
 static void mon_cas(void* addr, uint64_t e, uint64_t d, _Bool ok, int o) {
   mon_cas_count++;
@@ -132,10 +120,10 @@ static void mon_cas(void* addr, uint64_t e, uint64_t d, _Bool ok, int o) {
 /* ---------------------------------------------------------------- node-level state: Inv_N = allocated ++ free is a permutation of
  * [0,CAP), a cell is alive iff its index is in the allocated ring; the allocated ring may be finalized */
 unsigned in_cap, in_op; uint64_t in_v; unsigned in_L; _Bool in_lag; unsigned in_na[2]; _Bool in_fin[2]; uint64_t in_perm[2][CAP]; uint64_t in_cellv[2][CAP];
-static void havoc_node(unsigned k, unsigned s) {     /* pool[k] from input set s */
-  struct node* n = &pool[k];
+static void havoc_node(unsigned k, unsigned s) {     /* NODE(k) from input set s */
+  struct node* n = &NODE(k);
   in_na[s] = nondet_uint(); XV_ASSUME(in_na[s] <= CAP); in_fin[s] = nondet_bool();
-  for (unsigned i = 0; i < CAP; i++) { in_perm[s][i] = nondet_u64(); XV_ASSUME(in_perm[s][i] < CAP); in_cellv[s][i] = nondet_u64(); }
+  for (unsigned i = 0; i < CAP; i++) { in_perm[s][i] = nondet_u64(); XV_ASSUME(in_perm[s][i] < CAP); in_cellv[s][i] = nondet_u32(); }
   for (unsigned i = 0; i < CAP; i++) for (unsigned j = 0; j < i; j++) XV_ASSUME(in_perm[s][i] != in_perm[s][j]);
   havoc_ring_abs(&n->_allocated_queue); havoc_ring_abs(&n->_free_queue);
   n->_allocated_queue.a.fin = in_fin[s]; n->_free_queue.a.fin = 0;
@@ -148,14 +136,14 @@ static void havoc_node(unsigned k, unsigned s) {     /* pool[k] from input set s
   n->_next = 0; n->xv_live = 1; n->xv_deleted = 0; n->xv_retired = 0; n->xv_storage_words = CAP;
 }
 static void reset_ghost(void) {
-  for (unsigned k = 0; k < NP; k++) for (unsigned i = 0; i < CAP; i++) { pool[k]._storage[i].nd = 0; pool[k]._storage[i].nc = 0; pool[k]._storage[i].nm = 0; pool[k]._storage[i].cell = 1; }
+  for (unsigned k = 0; k < NP; k++) for (unsigned i = 0; i < CAP; i++) { NODE(k)._storage[i].nd = 0; NODE(k)._storage[i].nc = 0; NODE(k)._storage[i].nm = 0; NODE(k)._storage[i].cell = 1; }
   g_ext_moved_out = 0; g_ext_assigned = 0; xv_ev = 0; g_t_construct = 0; g_t_destroy = 0; g_t_moveout = 0; g_protected = 0; g_acquires = 0; g_in_dtor = 0;
   xv_expected_rs = calc_remap_shift(CAP); in_cap = CAP;
 }
 static void havoc_dead(unsigned k) {
-  pool[k].xv_live = 0; pool[k].xv_deleted = 0; pool[k].xv_retired = 0; pool[k]._next = nondet_uptr();
-  for (unsigned i = 0; i < CAP; i++) { pool[k]._storage[i].alive = 0; pool[k]._storage[i].v = nondet_u64(); pool[k]._storage[i].moved = nondet_bool(); }
-  havoc_ring_abs(&pool[k]._allocated_queue); havoc_ring_abs(&pool[k]._free_queue);
+  NODE(k).xv_live = 0; NODE(k).xv_deleted = 0; NODE(k).xv_retired = 0; NODE(k)._next = nondet_uptr();
+  for (unsigned i = 0; i < CAP; i++) { NODE(k)._storage[i].alive = 0; NODE(k)._storage[i].v = nondet_u32(); NODE(k)._storage[i].moved = nondet_bool(); }
+  havoc_ring_abs(&NODE(k)._allocated_queue); havoc_ring_abs(&NODE(k)._free_queue);
 }
 static _Bool inv_node(struct node* n) {
   struct ring_abs* A = &n->_allocated_queue.a; struct ring_abs* F = &n->_free_queue.a;
@@ -169,12 +157,12 @@ static _Bool inv_node(struct node* n) {
   return n->xv_storage_words == CAP;
 }
 enum { g_constructed, g_destroyed, g_movedout };
-static unsigned total(int which) { unsigned s = 0; for (unsigned k = 0; k < NP; k++) for (unsigned i = 0; i < CAP; i++) s += which == g_constructed ? pool[k]._storage[i].nc : which == g_destroyed ? pool[k]._storage[i].nd : pool[k]._storage[i].nm; return s; }
+static unsigned total(int which) { unsigned s = 0; for (unsigned k = 0; k < NP; k++) for (unsigned i = 0; i < CAP; i++) s += which == g_constructed ? NODE(k)._storage[i].nc : which == g_destroyed ? NODE(k)._storage[i].nd : NODE(k)._storage[i].nm; return s; }
 
 /* ---- node constructors */
 void h_node_ctor(void) {
   reset_ghost(); for (unsigned k = 0; k < NP; k++) havoc_dead(k);
-  T value; value.v = in_v = nondet_u64(); value.alive = 1; value.moved = 0; value.cell = 0; _Bool with_value = nondet_bool();
+  T value; value.v = in_v = nondet_u32(); value.alive = 1; value.moved = 0; value.cell = 0; _Bool with_value = nondet_bool();
   marked_ptr h = with_value ? new_node(&value) : new_node(0);
   struct node* n = node_at(h);
   XV_OBL("nq.node_ctor.inv", inv_node(n) && n->_next == 0 && !n->_allocated_queue.a.fin);
@@ -191,8 +179,8 @@ void h_node_ctor(void) {
 /* ---- node::try_push, all four outcomes */
 void h_node_try_push(void) {
   reset_ghost(); havoc_node(0, 0); havoc_dead(1); havoc_dead(2); in_op = 3;
-  struct node* n = &pool[0]; struct ring_abs* A = &n->_allocated_queue.a; struct ring_abs* F = &n->_free_queue.a;
-  T value; value.v = in_v = nondet_u64(); value.alive = 1; value.moved = 0; value.cell = 0;
+  struct node* n = &NODE(0); struct ring_abs* A = &n->_allocated_queue.a; struct ring_abs* F = &n->_free_queue.a;
+  T value; value.v = in_v = nondet_u32(); value.alive = 1; value.moved = 0; value.cell = 0;
   _Bool r = nq_node_try_push(n, &value);
   _Bool full = in_na[0] == CAP;
   XV_OBL("nq.push.appends", r == (!full && !in_fin[0]));
@@ -201,7 +189,7 @@ void h_node_try_push(void) {
   if (r) {
     unsigned e = (unsigned)in_perm[0][in_na[0]];
     XV_OBL("nq.push.appends", A->cnt == in_na[0] + 1 && A->vals[in_na[0]] == e && n->_storage[e].v == in_v && value.moved && !A->fin);
-    XV_OBL("nq.own.exactly_once", total(g_constructed) == 1 && pool[0]._storage[e].nc == 1 && total(g_destroyed) == 0 && total(g_movedout) == 0 && g_ext_moved_out == 1);
+    XV_OBL("nq.own.exactly_once", total(g_constructed) == 1 && NODE(0)._storage[e].nc == 1 && total(g_destroyed) == 0 && total(g_movedout) == 0 && g_ext_moved_out == 1);
     XV_OBL("nq.push.publish_order", n->_free_queue.t_deq < g_t_construct && g_t_construct < n->_allocated_queue.t_enq);
     XV_CANARY("node_push.stored");
   } else {
@@ -220,7 +208,7 @@ void h_node_try_push(void) {
 /* ---- steal_init_value on a freshly constructed private node */
 void h_steal(void) {
   reset_ghost(); for (unsigned k = 0; k < NP; k++) havoc_dead(k);
-  T value; value.v = in_v = nondet_u64(); value.alive = 1; value.moved = 0; value.cell = 0;
+  T value; value.v = in_v = nondet_u32(); value.alive = 1; value.moved = 0; value.cell = 0;
   marked_ptr h = new_node(&value);
   nq_node_steal_init_value(node_at(h), &value);
   XV_OBL("nq.push.rollback", value.v == in_v && !value.moved && value.alive);
@@ -234,22 +222,22 @@ void h_steal(void) {
 /* ---- ~node from any node state */
 void h_node_dtor(void) {
   reset_ghost(); havoc_node(0, 0); havoc_dead(1); havoc_dead(2); in_op = 4;
-  nq_node_dtor(&pool[0]);
+  nq_node_dtor(&NODE(0));
   for (unsigned i = 0; i < CAP; i++) {
     _Bool was = 0; for (unsigned k = 0; k < CAP; k++) if (k < in_na[0] && in_perm[0][k] == i) was = 1;
-    XV_OBL("nq.node_dtor.owned_only", pool[0]._storage[i].nd == (was ? 1 : 0) && !pool[0]._storage[i].alive && pool[0]._storage[i].nc == 0 && pool[0]._storage[i].nm == 0);
+    XV_OBL("nq.node_dtor.owned_only", NODE(0)._storage[i].nd == (was ? 1 : 0) && !NODE(0)._storage[i].alive && NODE(0)._storage[i].nc == 0 && NODE(0)._storage[i].nm == 0);
   }
-  XV_OBL("nq.node_dtor.owned_only", pool[0]._allocated_queue.a.cnt == 0);
+  XV_OBL("nq.node_dtor.owned_only", NODE(0)._allocated_queue.a.cnt == 0);
   if (in_na[0] == CAP) XV_CANARY("node_dtor.full"); if (in_na[0] == 0) XV_CANARY("node_dtor.empty"); if (in_fin[0]) XV_CANARY("node_dtor.finalized");
 }
 
-/* ---------------------------------------------------------------- queue-level state: head -> pool[0] (-> pool[1]); a node that has a
+/* ---------------------------------------------------------------- queue-level state: head -> NODE(0) (-> NODE(1)); a node that has a
  * successor is finalized; _tail is the last node or lags by one */
 static void havoc_queue(struct nq* q) {
   reset_ghost(); g_self = q;
   in_L = nondet_uint(); XV_ASSUME(in_L == 1 || in_L == 2); in_lag = nondet_bool();
   havoc_node(0, 0); havoc_dead(2);
-  if (in_L == 2) { havoc_node(1, 1); pool[0]._next = 2; XV_ASSUME(in_fin[0]); } else { havoc_dead(1); in_na[1] = 0; in_lag = 0; }
+  if (in_L == 2) { havoc_node(1, 1); NODE(0)._next = 2; XV_ASSUME(in_fin[0]); } else { havoc_dead(1); in_na[1] = 0; in_lag = 0; }
   q->_head = 1; q->_tail = (in_L == 2 && !in_lag) ? 2 : 1;
 }
 static unsigned content(struct nq* q, uint64_t* out) {          /* abstract queue: values of the allocated indices, node after node from head */
@@ -276,7 +264,7 @@ static _Bool inv_queue(struct nq* q) {          /* list well-formed, every linke
 void h_push(void) {
   struct nq q; havoc_queue(&q); in_op = 0;
   uint64_t before[NP * CAP + 1], after[NP * CAP + 1]; unsigned nb = content(&q, before);
-  T value; value.v = in_v = nondet_u64(); value.alive = 1; value.moved = 0; value.cell = 0;
+  T value; value.v = in_v = nondet_u32(); value.alive = 1; value.moved = 0; value.cell = 0;
   nq_push(&q, value);
   unsigned na = content(&q, after);
   XV_OBL("nq.push.appends", na == nb + 1 && after[nb] == in_v);
@@ -284,20 +272,21 @@ void h_push(void) {
   XV_OBL("nq.inv.preserved", inv_queue(&q) && q._head == 1);
   XV_OBL("nq.own.exactly_once", total(g_constructed) == total(g_destroyed) + 1 && total(g_destroyed) == total(g_movedout));
   unsigned last = in_L - 1; _Bool fits = in_na[last] < CAP && !in_fin[last];
-  if (fits) { XV_OBL("nq.push.appends", !pool[2].xv_live && q._tail == in_L); XV_CANARY("push.in_tail_node"); }
-  else {
-    XV_OBL("nq.push.hand_over", pool[2].xv_live && pool[last]._next == 3 && q._tail == 3 && pool[last]._allocated_queue.a.fin && pool[2]._allocated_queue.a.cnt == 1);
+  if (fits) { XV_OBL("nq.push.appends", !NODE(in_L).xv_live && !node2.xv_live && q._tail == in_L); XV_CANARY("push.in_tail_node"); }
+  else {          /* the first spare pool slot (handle in_L + 1) is the new node */
+    XV_OBL("nq.push.hand_over", NODE(in_L).xv_live && NODE(last)._next == in_L + 1 && q._tail == in_L + 1 && NODE(last)._allocated_queue.a.fin && NODE(in_L)._allocated_queue.a.cnt == 1
+                                && NODE(in_L)._next == 0 && !NODE(in_L)._allocated_queue.a.fin);
     XV_CANARY("push.new_node");
     if (in_fin[last] && in_na[last] < CAP) XV_CANARY("push.rolled_back_then_new_node");
   }
   if (in_lag) XV_CANARY("push.helped_tail");
-  XV_OBL("nq.node.delete_once", pool[0].xv_deleted + pool[1].xv_deleted + pool[2].xv_deleted == 0 && pool[0].xv_retired + pool[1].xv_retired + pool[2].xv_retired == 0);
+  XV_OBL("nq.node.delete_once", node0.xv_deleted + node1.xv_deleted + node2.xv_deleted == 0 && node0.xv_retired + node1.xv_retired + node2.xv_retired == 0);
 }
 
 void h_pop(void) {
   struct nq q; havoc_queue(&q); in_op = 1;
   uint64_t before[NP * CAP + 1], after[NP * CAP + 1]; unsigned nb = content(&q, before);
-  T result; result.v = nondet_u64(); result.alive = 1; result.cell = 0; result.moved = nondet_bool(); uint64_t r0 = result.v; _Bool m0 = result.moved;
+  T result; result.v = nondet_u32(); result.alive = 1; result.cell = 0; result.moved = nondet_bool(); uint64_t r0 = result.v; _Bool m0 = result.moved;
   _Bool r = nq_try_pop(&q, &result);
   unsigned na = content(&q, after);
   XV_OBL("nq.pop.empty_iff", r == (nb > 0));
@@ -313,11 +302,11 @@ void h_pop(void) {
   }
   /* hand-over: an empty head node that has a successor is unlinked and retired exactly once; a node that still holds values, and the last node, never */
   _Bool skip0 = in_L == 2 && in_na[0] == 0;
-  XV_OBL("nq.pop.hand_over", q._head == (skip0 ? 2 : 1) && pool[0].xv_retired == (skip0 ? 1 : 0) && pool[1].xv_retired == 0);
-  XV_OBL("nq.pop.hand_over", pool[0].xv_deleted + pool[1].xv_deleted + pool[2].xv_deleted == 0 && !pool[2].xv_live);
-  if (skip0) { XV_OBL("nq.pop.threshold_reset", pool[0]._allocated_queue.th_set == 3 * CAP - 1 && pool[0]._allocated_queue.n_deq == 2); XV_CANARY("pop.node_drained"); }
+  XV_OBL("nq.pop.hand_over", q._head == (skip0 ? 2 : 1) && NODE(0).xv_retired == (skip0 ? 1 : 0) && NODE(1).xv_retired == 0);
+  XV_OBL("nq.pop.hand_over", NODE(0).xv_deleted + NODE(1).xv_deleted + NODE(2).xv_deleted == 0 && !NODE(2).xv_live);
+  if (skip0) { XV_OBL("nq.pop.threshold_reset", NODE(0)._allocated_queue.th_set == 3 * CAP - 1 && NODE(0)._allocated_queue.n_deq == 2); XV_CANARY("pop.node_drained"); }
   /* remaining list is well formed (the tail may still lag: pop never moves _tail) */
-  { struct node* hn = node_at(q._head); XV_OBL("nq.inv.preserved", inv_node(hn) && (in_L == 2 ? inv_node(&pool[1]) : 1) && q._tail == ((in_L == 2 && !in_lag) ? 2 : 1)); }
+  { struct node* hn = node_at(q._head); XV_OBL("nq.inv.preserved", inv_node(hn) && (in_L == 2 ? inv_node(&NODE(1)) : 1) && q._tail == ((in_L == 2 && !in_lag) ? 2 : 1)); }
 }
 
 void h_ctor(void) {
@@ -334,9 +323,9 @@ void h_dtor(void) {
   nq_dtor(&q);
   for (unsigned k = 0; k < 2; k++) for (unsigned i = 0; i < CAP; i++) {
     _Bool was = 0; if (k < in_L) for (unsigned j = 0; j < CAP; j++) if (j < in_na[k] && in_perm[k][j] == i) was = 1;
-    XV_OBL("nq.dtor.owns", pool[k]._storage[i].nd == (was ? 1 : 0) && !pool[k]._storage[i].alive);
+    XV_OBL("nq.dtor.owns", NODE(k)._storage[i].nd == (was ? 1 : 0) && !NODE(k)._storage[i].alive);
   }
-  XV_OBL("nq.dtor.owns", pool[0].xv_deleted == 1 && pool[1].xv_deleted == (in_L == 2 ? 1 : 0) && pool[2].xv_deleted == 0 && total(g_constructed) == 0 && total(g_movedout) == 0);
+  XV_OBL("nq.dtor.owns", NODE(0).xv_deleted == 1 && NODE(1).xv_deleted == (in_L == 2 ? 1 : 0) && NODE(2).xv_deleted == 0 && total(g_constructed) == 0 && total(g_movedout) == 0);
   if (in_L == 2) XV_CANARY("dtor.two_nodes"); else XV_CANARY("dtor.one_node");
 }
 
@@ -346,7 +335,7 @@ _Bool env_on;
 void xv_env(void) {        /* other threads: may link a node behind any node, swing head/tail among the live nodes */
   if (!env_on) return;
   if (nondet_bool()) { marked_ptr t = nondet_uptr(); if (t >= 1 && t <= 2 && node_at(t)->xv_live) g_self->_tail = t; }
-  if (nondet_bool() && pool[0]._next == 0 && pool[1].xv_live) { pool[0]._next = 2; pool[0]._allocated_queue.a.fin = 1; }
+  if (nondet_bool() && NODE(0)._next == 0 && NODE(1).xv_live) { NODE(0)._next = 2; NODE(0)._allocated_queue.a.fin = 1; }
 }
 #endif
 void h_push_int(void) {
@@ -360,6 +349,6 @@ void h_push_int(void) {
   XV_OBL("nq.commit", value.moved);       /* the value ended up in exactly one node */
   XV_OBL("nq.own.exactly_once", total(g_constructed) == total(g_destroyed) + 1);
   if (mon_cas_count > 0) XV_CANARY("push_int.cas");
-  if (pool[2].xv_deleted) XV_CANARY("push_int.lost_link_race");
+  if (NODE(2).xv_deleted) XV_CANARY("push_int.lost_link_race");
 #endif
 }
